@@ -28,6 +28,9 @@ func propC06(c *Ctx, r *Report) {
 	c.runOperandOrder(r, "order.ir", inPkgs("ir"))
 	r.floor("order.wgsl", orderFloors["wgsl"])
 	r.floor("order.ir", orderFloors["ir"])
+	r.Clauses = append(r.Clauses, "literal text (E10): no strconv.Parse* / Atoi / fmt.Sscan* call in the frontend receives the raw Value text of a parser.Literal (which keeps the WGSL suffix and may be hexadecimal); numeric text goes through the lowerer's literal parsers, so @workgroup_size(64u), @align(0x10), @id(3u) and suffixed override defaults are not silently replaced by defaults")
+	c.runLiteralRawParse(r, "literal.rawparse", inPkgs("wgsl"), literalRawParseExceptions)
+	r.floor("literal.parses", 25)
 	r.Clauses = append(r.Clauses, wgslNamesClause)
 	c.runWGSLNameTables(r, "names.wgsltable", "wgsl/internal/lower")
 	r.floor("names.wgsltable", 100)
